@@ -276,37 +276,37 @@ func genC09Base(t *rapid.T) *sgen.Feed {
 	return f
 }
 
-func TestC09(t *testing.T) {
-	rapid.Check(t, func(t *rapid.T) {
-		f := genC09Base(t)
-		ts := f.Tables()
-		n := rapid.IntRange(1, 5).Draw(t, "nBad")
-		var bad []BadRow
-		var classes []string
-		for i := 0; i < n; i++ {
-			file := rapid.SampledFrom(sgen.FileOrder).Draw(t, "badFile")
-			tb := ts.Get(file)
-			if len(tb.Rows) == 0 {
-				continue
-			}
-			cause := rapid.SampledFrom(c09Catalogue[file]).Draw(t, "cause")
-			value := rapid.SampledFrom(cause.Values).Draw(t, "value")
-			tpl := tb.Rows[rapid.IntRange(0, len(tb.Rows)-1).Draw(t, "template")]
-			fresh := ""
-			if rapid.Bool().Draw(t, "freshID") {
-				fresh = fmt.Sprintf("bad-%d", i)
-			}
-			pos := rapid.SampledFrom([]int{0, len(tb.Rows), rapid.IntRange(0, len(tb.Rows)).Draw(t, "posAny")}).Draw(t, "pos")
-			bad = append(bad, BadRow{File: file, Pos: pos, Cells: c09MakeRow(tb, tpl, cause, value, fresh), Cause: cause.Name})
-			classes = append(classes, file+":"+cause.Name)
+func TestC09(t *testing.T) { rapid.Check(t, propC09) }
+
+func propC09(t *rapid.T) {
+	f := genC09Base(t)
+	ts := f.Tables()
+	n := rapid.IntRange(1, 5).Draw(t, "nBad")
+	var bad []BadRow
+	var classes []string
+	for i := 0; i < n; i++ {
+		file := rapid.SampledFrom(sgen.FileOrder).Draw(t, "badFile")
+		tb := ts.Get(file)
+		if len(tb.Rows) == 0 {
+			continue
 		}
-		c := CaseC09{Feed: f, Bad: bad, Inherit: rapid.Bool().Draw(t, "inherit")}
-		c09Rec.Eval(dedupe(classes)...)
-		if c09Nontrivial(ts, bad) {
-			c09Rec.NontrivialCase(vt.Fingerprint(c), func() any { return map[string]any{"bad_rows": bad, "files": ts} })
+		cause := rapid.SampledFrom(c09Catalogue[file]).Draw(t, "cause")
+		value := rapid.SampledFrom(cause.Values).Draw(t, "value")
+		tpl := tb.Rows[rapid.IntRange(0, len(tb.Rows)-1).Draw(t, "template")]
+		fresh := ""
+		if rapid.Bool().Draw(t, "freshID") {
+			fresh = fmt.Sprintf("bad-%d", i)
 		}
-		vt.Run(t, c09Rec, c, checkC09)
-	})
+		pos := rapid.SampledFrom([]int{0, len(tb.Rows), rapid.IntRange(0, len(tb.Rows)).Draw(t, "posAny")}).Draw(t, "pos")
+		bad = append(bad, BadRow{File: file, Pos: pos, Cells: c09MakeRow(tb, tpl, cause, value, fresh), Cause: cause.Name})
+		classes = append(classes, file+":"+cause.Name)
+	}
+	c := CaseC09{Feed: f, Bad: bad, Inherit: rapid.Bool().Draw(t, "inherit")}
+	c09Rec.Eval(dedupe(classes)...)
+	if c09Nontrivial(ts, bad) {
+		c09Rec.NontrivialCase(vt.Fingerprint(c), func() any { return map[string]any{"bad_rows": bad, "files": ts} })
+	}
+	vt.Run(t, c09Rec, c, checkC09)
 }
 
 func TestC09Enum(t *testing.T) {
